@@ -588,6 +588,47 @@ def r17_faults(ctx):
     ai.global_store.pop(KEY, None)
 
 
+def r17_with_statement(ctx):
+    """The file's charset is in force for the duration of a load or save call - not for as long as somebody holds the file: a
+    MidiFile used as a context manager (`with MidiFile(..., charset=X) as mid:`) leaves the process-wide charset alone inside the
+    block and after it, also when two files are entered and left in the other order."""
+    ai = make_interp(ctx)
+    cls = ctx.p.cls(MF, 'MidiFile')
+    if ctx.p.lookup_method(cls, '__enter__')[1] is None:
+        ctx.floor('R17.8', 1, 1)
+        return
+    ai.builtin_summaries['__charset_now__'] = lambda i_, a_, k_, n_: wire.charset_in_force(i_, ctx)
+    src = ("def probe(a, b):\n"
+           "    seen = []\n"
+           "    with a as x:\n"
+           "        seen.append(__charset_now__())\n"
+           "    seen.append(__charset_now__())\n"
+           "    a.__enter__()\n"
+           "    b.__enter__()\n"
+           "    seen.append(__charset_now__())\n"
+           "    a.__exit__(None, None, None)\n"
+           "    b.__exit__(None, None, None)\n"
+           "    seen.append(__charset_now__())\n"
+           "    return seen\n")
+    tree = ast.parse(src)
+    from ..model import FuncInfo as FI, add_parents
+    add_parents(tree)
+    probe = FI('probe', ctx.p.module(MF), tree.body[0])
+
+    def thunk():
+        ai.global_store.pop(KEY, None)
+        return ai.call_function(probe, [_mf(ctx, ai, 'utf-16'), _mf(ctx, ai, 'shift_jis')], {})
+    outs = ai.explore(thunk)
+    got = list(outs[0].value.items) if len(outs) == 1 and outs[0].kind == 'return' and isinstance(outs[0].value, AList) else None
+    o, ent = ctx.p.lookup_method(cls, '__enter__')
+    ctx.require(got == ['latin1'] * 4, 'R17.8', 'MidiFile as a context manager', ctx.where(ent),
+                f'the charset in force inside `with file:`, after it, with two files entered, and after leaving them oldest first is '
+                f'{got if got is not None else outs!r}; expected latin1 every time', construct=f'{ent.qname}::charset-scope')
+    ctx.floor('R17.8', 1, 1)
+    for q in ai.inlined:
+        ctx.functions.add(q)
+
+
 def r17_payload_reader(ctx):
     """A text of any length comes back whole: read_bytes hands the decoder exactly the announced number of payload bytes, also
     beyond any block size (shared with C09 R09.6)."""
@@ -595,4 +636,4 @@ def r17_payload_reader(ctx):
     ctx.borrow(c09.r09_6, 'R17.7')
 
 
-RULES = [('R17.7', r17_payload_reader), ('R17-borrowed', r17_borrowed), ('R17-faults', r17_faults), ('R17-text-specs', r17_text_specs), ('R17-scoping', r17_scoping), ('R17-nested', r17_nested), ('R17.2', r17_2), ('R17.4', r17_4)]
+RULES = [('R17.8', r17_with_statement), ('R17.7', r17_payload_reader), ('R17-borrowed', r17_borrowed), ('R17-faults', r17_faults), ('R17-text-specs', r17_text_specs), ('R17-scoping', r17_scoping), ('R17-nested', r17_nested), ('R17.2', r17_2), ('R17.4', r17_4)]
